@@ -167,7 +167,7 @@ def build(S, tier):
             sim_token_log.append("frame")
             I_.call(I_.getattr(fd, "write"), [Token(f"frame{n}-head", complete=False)], {})
             I_.call(I_.getattr(fd, "write"), [Token(f"frame{n}-rest", complete=False)], {})
-        I.loader.models["ase.io.extxyz"].attrs["write_xyz"] = Builtin("write_xyz", write_xyz)
+        I.loader.models["ase.io.extxyz"].attrs["write_xyz"] = Builtin("write_xyz", write_xyz, lenient=True)
         if "io" in I.loader.models:
             # io.StringIO: an in-memory text file (same position / overwrite semantics as a file opened "w+")
             I.loader.models["io"].attrs["StringIO"] = Builtin("StringIO", lambda I_, a, k: FileModel("w"))
